@@ -220,4 +220,5 @@ package replicator
 //@   ensures r.buffer == B0 || (len(r.buffer) == len(B0) + 1 && (forall j Int :: 0 <= j && j < len(B0) ==> r.buffer[j] == B0[j]))
 //@   ensures len(r.buffer) == len(B0) + 1 ==> result1 == nil && logLen(r.buffer[len(B0)]) > 0 && prov(r.buffer[len(B0)]) == 1 && logID(r.buffer[len(B0)]) == logID(stLog(r.store)) && acOf(r.buffer[len(B0)]) == stAC(r.store)
 //@   ensures @C04 @C03 len(r.buffer) == len(B0) + 1 ==> (forall j Int :: 0 <= j && j < len(valsOf(r.buffer[len(B0)])) ==> ptr(valsOf(r.buffer[len(B0)])[j], "entry.Entry").LogID == logID(r.buffer[len(B0)]))
-//@   modifies r.buffer
+//@   ensures @C11 @C10 result1 == nil ==> logLen(lastFetched(0)) > 0
+//@   modifies r.buffer, lastFetched(0)
